@@ -20,6 +20,7 @@ import dns.rrset
 import dns.tokenizer
 import dns.tsig
 import dns.ttl
+import dns.wire
 import dns.zone
 import dns.zonefile
 
@@ -28,7 +29,7 @@ from harness.core import VERIF, Ctx, enc_labels, hx
 RULE = (
     "streams from one SplitMix64 state: (wire) valid messages built from 178 sample records of 63 types then mutated "
     "(bit flips, count/rdlen edits, pointer rewrites, truncation, junk), arbitrary octets, per-type RDATA (arbitrary and "
-    "mutated-valid), EDNS option bodies; (text) token soups and mutated valid text for names, TTLs, per-type RDATA, zone "
+    "mutated-valid), EDNS option bodies, random dns.wire.Parser routines (library fragment and raw API) on short wires; (text) token soups and mutated valid text for names, TTLs, per-type RDATA, zone "
     "files, rrsets and textual messages; every parser option combination drawn at random. A case is non-trivial if "
     "its (entry point, options, input) key is new."
 )
@@ -37,7 +38,7 @@ TRUSTED_BASE = [
     "10 s alarm as the hang detector",
 ]
 ASSUMPTIONS = [
-    "model correspondence covers dns.name.from_wire/from_text, dns.ttl.from_text and the _WireReader skeleton over a modelled subset of record types; all other entry points are covered by the direct outcome-class oracle only",
+    "model correspondence covers dns.name.from_wire/from_text, dns.ttl.from_text, dns.wire.Parser op programs and the _WireReader skeleton over a modelled subset of record types; all other entry points are covered by the direct outcome-class oracle only",
     "non-ASCII text input is outside the models (the oracle still exercises it in the malformed stream)",
 ]
 
@@ -290,6 +291,98 @@ def render_back(ctx, entry, v, rep, what, wire=True):
         report(ctx, entry + ".to_wire", c2, rep, f"{what}: to_wire of the parsed value raised {e2!r}")
 
 
+# -------------------------------------------------------------------------------------------------
+# dns.wire.Parser op programs (model: lean/Model/WireParser.lean)
+# -------------------------------------------------------------------------------------------------
+def prog_tokens(prog):
+    out = []
+    for cmd in prog:
+        op = cmd[0]
+        if op in ("gb", "gc", "sk", "sf"):
+            out += [op, str(cmd[1])]
+        elif op in ("gr", "gn"):
+            out.append(op)
+        elif op == "rs":
+            out += ["rs", str(cmd[1]), "("] + prog_tokens(cmd[2]) + [")"]
+        elif op in ("rf", "tr"):
+            out += [op, "("] + prog_tokens(cmd[1]) + [")"]
+    return out
+
+
+def prog_run(p, prog, outs):
+    """interpret a program on the real dns.wire.Parser"""
+    for cmd in prog:
+        op = cmd[0]
+        if op == "gb":
+            outs.append("b" + hx(p.get_bytes(cmd[1])))
+        elif op == "gc":
+            outs.append("b" + hx(p.get_counted_bytes(cmd[1])))
+        elif op == "gr":
+            outs.append("b" + hx(p.get_remaining()))
+        elif op == "sk":
+            p.seek(cmd[1])
+        elif op == "sf":
+            p.seek(p.current + cmd[1])
+        elif op == "gn":
+            outs.append("n" + enc_labels(p.get_name().labels))
+        elif op == "rs":
+            with p.restrict_to(cmd[1]):
+                prog_run(p, cmd[2], outs)
+        elif op == "rf":
+            with p.restore_furthest():
+                prog_run(p, cmd[1], outs)
+        elif op == "tr":
+            try:
+                prog_run(p, cmd[1], outs)
+            except dns.exception.FormError:
+                pass
+
+
+def gen_prog(rng, depth, lib, wl):
+    prog = []
+    for _ in range(rng.choice([0, 1, 1, 2, 2, 3, 4])):
+        m = rng.below(12)
+        small = rng.choice([0, 0, 1, 1, 2, 2, 3, 4, 6, 10, wl, wl + 1])
+        if m <= 2:
+            prog.append(("gb", small))
+        elif m == 3:
+            prog.append(("gc", rng.choice([1, 1, 1, 2, 0])))
+        elif m == 4:
+            prog.append(("gr",))
+        elif m == 5:
+            prog.append(("gn",))
+        elif m == 6:
+            prog.append(("sf", rng.choice([0, 1, 2, 3, 5, wl])))
+        elif m == 7 and not lib:
+            prog.append(("sk", rng.choice([-1, 0, 0, 1, 2, 3, 5, wl - 1, wl, wl + 1])))
+        elif m == 8 and not lib and depth > 0:
+            prog.append(("rf", gen_prog(rng, depth - 1, lib, wl)))
+        elif m in (9, 10) and depth > 0:
+            prog.append(("rs", small, gen_prog(rng, depth - 1, lib, wl)))
+        elif m == 11 and depth > 0:
+            prog.append(("tr", gen_prog(rng, depth - 1, lib, wl)))
+    return prog
+
+
+def gen_parser_wire(rng):
+    """short wires with plausible names, length octets and pointers so that gc/gn succeed often"""
+    parts = []
+    for _ in range(rng.choice([1, 2, 3, 4])):
+        m = rng.below(6)
+        if m == 0:
+            parts.append(b"\x01a\x02bc\x00")
+        elif m == 1:
+            parts.append(bytes([0xC0, rng.below(12)]))
+        elif m == 2:
+            k = rng.below(5)
+            parts.append(bytes([k]) + rng.bytes(k))
+        elif m == 3:
+            parts.append(b"\x00")
+        else:
+            parts.append(rng.bytes(rng.below(6)))
+    return b"".join(parts)[:24]
+
+
 def eval_case(ctx: Ctx, c: dict):
     k = c["kind"]
     rep = {"kind": k, "case": c}
@@ -431,6 +524,34 @@ def eval_case(ctx: Ctx, c: dict):
         if v:
             for rrs in v[:4]:
                 render_back(ctx, "rrset", rrs, rep, f"rrset parsed from {t!r}", wire=False)
+    elif k == "parser":
+        w = bytes.fromhex(c["wire"])
+        prog = c["prog"]
+        toks = " ".join(prog_tokens(prog))
+        outs = []
+        par = None
+
+        def go():
+            nonlocal par
+            par = dns.wire.Parser(w, c["cur"])
+            prog_run(par, prog, outs)
+
+        cls, _, e = guarded(go)
+        if par is None:
+            impl = "ctor " + cls
+        else:
+            o = "ok" if cls == "ok" else ("FormError" if cls == "FormError" else cls.replace("FOREIGN:", ""))
+            impl = f"{o} cur={par.current} end={par.end} fur={par.furthest} outs={';'.join(outs)}"
+        ctx.corr(f"c04.parser {hx(w)} {c['cur']} {toks}".rstrip(), impl, c)
+        ctx.count("parser." + ("lib." if c.get("lib") else "raw.") + impl.split(" ")[0])
+        # direct oracle: in the fragment of the API the library uses, only FormError; in every program, no
+        # octets from beyond the wire and `end` restored
+        if c.get("lib") and cls not in ("ok", "FormError"):
+            ctx.fail(f"C04/wire.Parser/lib-fragment/{cls}", f"Parser routine {toks!r} on {w.hex()} raised {e!r}", rep)
+        if par is not None and par.end != len(w):
+            ctx.fail("C04/wire.Parser/end-not-restored", f"Parser routine {toks!r} on {w.hex()} left end={par.end}", rep)
+        if cls == "HANG" or (cls.startswith("FOREIGN") and cls != "FOREIGN:AssertionError"):
+            ctx.fail(f"C04/wire.Parser/{cls}", f"Parser routine {toks!r} on {w.hex()} raised {e!r}", rep)
     elif k == "msg.text":
         t = c["text"]
         # textual messages are not in the statement's list of text inputs (names, records, TTLs, zone files),
@@ -623,6 +744,13 @@ def generate(ctx: Ctx, scale: int, rng):
         c = {"kind": "msg.text", "text": t, "orr": rng.below(2)}
         ctx.case(("mt", t, c["orr"]), sample=c if len(t) < 100 else None)
         eval_case(ctx, c)
+    for _ in range(n(2500)):
+        w = gen_parser_wire(rng)
+        lib = rng.chance(1, 2)
+        prog = gen_prog(rng, 3, lib, len(w))
+        c = {"kind": "parser", "wire": w.hex(), "cur": rng.choice([0, 0, 0, 1, 2, len(w), len(w) + 1]), "prog": prog, "lib": int(lib)}
+        ctx.case(("parser", w, c["cur"], str(prog)), sample=c if len(str(prog)) < 120 else None)
+        eval_case(ctx, c)
     for _ in range(n(800)):
         t = soup(rng)
         c = {"kind": "tok", "text": t, "wl": rng.below(2), "wc": rng.below(2)}
@@ -656,7 +784,7 @@ def replay(ctx: Ctx, obj: dict):
 
 
 LEVEL = {
-    "text": "Lean 4: the modelled parsers (name text/wire decoders, TTL parser, the _WireReader skeleton with its continue_on_error bookkeeping) are total functions into an error sum (termination = acceptance by Lean), with theorems that every value they return is well formed and renders again, that continue_on_error never raises after the header and records an error exactly when strict mode raises, agreeing with strict mode on clean input. The universal 'no foreign exception, no hang' clause over every entry point and option combination is carried by the outcome-class correspondence/oracle (differential fuzzing of all entry points against the {value, library error family} classification), which is exploration, labelled as such.",
+    "text": "Lean 4: the modelled parsers (name text/wire decoders, TTL parser, dns.wirebase.Parser as a state machine over arbitrary routines of get_bytes/get_counted_bytes/get_remaining/seek/get_name calls, nested restrict_to/restore_furthest blocks and FormError handlers, the _WireReader skeleton with its continue_on_error bookkeeping) are total functions into an error sum (termination = acceptance by Lean), with theorems that every value they return is well formed and renders again, that continue_on_error never raises after the header and records an error exactly when strict mode raises, agreeing with strict mode on clean input; that no Parser routine whatsoever is handed octets from beyond the wire or leaves `end` unrestored (parser_window), and that routines in the fragment of the Parser API the library uses end with a value or FormError only (parser_lib_only_form_error; the raw API can trip get_bytes' assertion, exhibited by an example and replayed on the implementation). The universal 'no foreign exception, no hang' clause over every entry point and option combination is carried by the outcome-class correspondence/oracle (differential fuzzing of all entry points against the {value, library error family} classification), which is exploration, labelled as such.",
     "note": "Trusted: Lean kernel; classification of exception classes (DESIGN §6 reading); generators. The model covers names, TTLs and the message reader skeleton over a subset of record types; RDATA/zone-file/tokenizer parsers are covered by the outcome-class oracle only (partial).",
     "technique": "Lean 4 totality/closure theorems on parser models + outcome-class correspondence and fuzz oracle on every parser entry point",
     "design_ref": "DESIGN.md §7 C04",
